@@ -318,6 +318,13 @@ def profile_C09(g, tier):
     return scen
 
 
+def profile_C07(g, tier):
+    scen = graph_scenario(g, tier, ["C07"])
+    if tier == "quick" and g.chance("big", 0.3):
+        scen["tests"] = g.pick("bigsel", ["leaves..tutorial_get", "leaves..tutorial_finale", "leaves..tutorial_get..implicit_both"])
+    return scen
+
+
 def profile_C16(g, tier):
     scen = graph_scenario(g, tier, ["C16"])
     if g.chance("fail", 0.5):
@@ -335,6 +342,7 @@ PROFILES = {
     "C04": profile_C04,
     "C05": profile_C05,
     "C06": profile_C06,
+    "C07": profile_C07,
     "C09": profile_C09,
     "C16": profile_C16,
     "C08": profile_C08,
